@@ -1,5 +1,6 @@
 import PonyVerif.Drive.Util
 import PonyVerif.Model.PyPrint
+import PonyVerif.Model.PreTrans
 /-
   line-protocol entry for the C04 model.
   request  {"op":"print", "e": <expr>}  → {"src": text the model prints, "parse": <expr>|null (reference parser on the
@@ -190,6 +191,28 @@ def tokOf (j : Json) : Except String Tok := do
     | [.str "c", s] => pure (.const (← asStr s))
     | _ => throw "bad token"
 
+open PonyVerif.Model.PreTrans in
+def kindOf (s : String) : Except String Kind :=
+  match s with
+  | "nameLoad" => pure .nameLoad | "const" => pure .const | "lambda" => pure .lambda | "starred" => pure .starred
+  | "listD" => pure .listD | "dictD" => pure .dictD | "slice" => pure .slice | "keyword" => pure .keyword
+  | "tuple" => pure .tuple | "other" => pure .other
+  | _ => throw s!"kind {s}"
+
+open PonyVerif.Model.PreTrans in
+mutual
+partial def nodeOf (j : Json) : Except String Node := do
+  match ← asArr j with
+  | [k, l, ns, cs] =>
+      let names ← (← asArr ns).mapM asStr
+      let lab : Nat ← fromJson? l
+      pure (.mk (← kindOf (← asStr k)) lab names (← nodesOf (← asArr cs)))
+  | _ => throw "bad node"
+partial def nodesOf : List Json → Except String Nodes
+  | [] => pure .nil
+  | j :: t => do pure (.cons (← nodeOf j) (← nodesOf t))
+end
+
 def handle (j : Json) : Except String Json := do
   let op ← argStr j "op"
   match op with
@@ -198,6 +221,11 @@ def handle (j : Json) : Except String Json := do
       let ts := toks e
       let p := match parse ts with | some x => jE x | none => Json.null
       pure (Json.mkObj [("src", .str (srcText e)), ("parse", p), ("norm", jE (norm e)), ("ntoks", .num (JsonNumber.fromNat ts.length))])
+  | "classify" =>
+      let t ← nodeOf (← j.getObjVal? "t")
+      let ctx ← (← argArr j "ctx").mapM asStr
+      let r := PonyVerif.Model.PreTrans.externals ctx t
+      pure (Json.mkObj [("externals", .arr (r.map (fun n => Json.num (JsonNumber.fromNat n))).toArray)])
   | "parse_toks" =>
       let ts ← (← argArr j "toks").mapM tokOf
       pure (Json.mkObj [("parse", match parse ts with | some x => jE x | none => Json.null)])
